@@ -116,19 +116,33 @@ pub fn run(tier: Tier, shard: Shard, stats: &mut Stats) {
                 let set = charset(k, c);
                 let set_s: String = set.iter().collect();
                 let tpl = format!("|{{bar:{n}}}|");
-                let style = match catch(|| ProgressStyle::with_template(&tpl).unwrap().progress_chars(&set_s)) {
+                // the order in which the style is put together must not matter: template first,
+                // progress characters first, or the template replaced on the style of a live bar
+                for order in 0..if n <= 12 { 3 } else { 1 } {
+                let order_name = ["with_template, progress_chars", "progress_chars, template", "bar.style().template(..) installed with set_style"][order];
+                let style = match catch(|| match order {
+                    1 => ProgressStyle::default_bar().progress_chars(&set_s).template(&tpl).unwrap(),
+                    _ => ProgressStyle::with_template(&tpl).unwrap().progress_chars(&set_s),
+                }) {
                     Ok(s) => s,
                     Err(p) => {
-                        stats.violation(Violation { class: format!("panic building style: {}", panic_class(&p)), config: "bar".into(), history: vec![tpl, set_s], detail: p });
+                        stats.violation(Violation { class: format!("panic building style: {}", panic_class(&p)), config: "bar".into(), history: vec![tpl.clone(), set_s.clone()], detail: p });
                         continue;
                     }
                 };
                 let pb = bar_on(&catcher, Some(1), style);
+                if order == 2 {
+                    pb.tick();
+                    if let Err(p) = catch(|| pb.set_style(pb.style().template(&tpl).unwrap())) {
+                        stats.violation(Violation { class: format!("panic building style: {}", panic_class(&p)), config: "bar".into(), history: vec![tpl.clone(), set_s.clone(), order_name.into()], detail: p });
+                        continue;
+                    }
+                }
                 let mut prev: Option<(u64, u64, usize)> = None;
-                for (pos, len) in pairs(tier, n > 100) {
+                for (pos, len) in pairs(tier, n > 100 || order > 0) {
                     stats.evaluations += 1;
                     stats.transitions += 1;
-                    let hist = vec![tpl.clone(), format!("progress_chars {:?}", set_s), format!("pos {pos} len {len}")];
+                    let hist = vec![tpl.clone(), format!("progress_chars {:?}", set_s), format!("style built as: {order_name}"), format!("pos {pos} len {len}")];
                     let r = catch(|| {
                         pb.update(|s| {
                             s.set_len(len);
@@ -160,6 +174,7 @@ pub fn run(tier: Tier, shard: Shard, stats: &mut Stats) {
                     }
                 }
                 pb.abandon();
+                }
             }
         }
     }
@@ -266,13 +281,18 @@ pub fn run(tier: Tier, shard: Shard, stats: &mut Stats) {
                 continue;
             }
             for rest in [0usize, 3] {
-                for c in [1usize, 2] {
+                for (c, multi) in [(1usize, false), (2, false), (1, true), (2, true)] {
                     let catcher = LineCatcher::new(w1);
                     let set = charset(3, c);
                     let set_s: String = set.iter().collect();
                     let tpl = format!("{}{{wide_bar}}", "x".repeat(rest));
                     let style = ProgressStyle::with_template(&tpl).unwrap().progress_chars(&set_s);
-                    let pb = bar_on(&catcher, Some(7), style);
+                    // standalone, or as the only member of a MultiProgress that owns the terminal
+                    let mp = multi.then(|| indicatif::MultiProgress::with_draw_target(indicatif::ProgressDrawTarget::term_like(Box::new(catcher.clone()))));
+                    let pb = match mp.as_ref() {
+                        Some(mp) => mp.add(indicatif::ProgressBar::with_draw_target(Some(7), indicatif::ProgressDrawTarget::hidden()).with_style(style)),
+                        None => bar_on(&catcher, Some(7), style),
+                    };
                     pb.set_position(3);
                     for (step, gap_ms) in [(0usize, 0u64), (1, 1), (2, 100), (3, 1000)] {
                         let tw = if step % 2 == 0 { w1 } else { w2 };
@@ -280,7 +300,7 @@ pub fn run(tier: Tier, shard: Shard, stats: &mut Stats) {
                         crate::clock::advance_ms(gap_ms);
                         stats.evaluations += 1;
                         stats.transitions += 1;
-                        let hist = vec![tpl.clone(), format!("progress_chars {:?}", set_s), format!("widths {w1} <-> {w2}, redraw #{step} at width {tw} after {gap_ms} ms")];
+                        let hist = vec![tpl.clone(), format!("progress_chars {:?}", set_s), format!("{}widths {w1} <-> {w2}, redraw #{step} at width {tw} after {gap_ms} ms", if multi { "member of a MultiProgress, " } else { "" })];
                         match catch(|| crate::render::frame_lines_tick(&catcher, &pb)) {
                             Err(p) => stats.violation(Violation { class: format!("panic: {}", panic_class(&p)), config: "wide_bar-resize".into(), history: hist, detail: p }),
                             Ok(lines) => {
@@ -294,7 +314,7 @@ pub fn run(tier: Tier, shard: Shard, stats: &mut Stats) {
                                         continue;
                                     }
                                 }
-                                stats.state_outcome(hash_of(&("resize", w1, w2, step, rest, c)), true);
+                                stats.state_outcome(hash_of(&("resize", w1, w2, step, rest, c, multi)), true);
                             }
                         }
                     }
@@ -310,7 +330,7 @@ pub fn run(tier: Tier, shard: Shard, stats: &mut Stats) {
 pub fn meta(_tier: Tier) -> Meta {
     Meta {
         level: "exploration",
-        rule: "{bar:N} for N in 0..=64,100,255,1000,65535 x progress character sets of k=2..=10 clusters of width 1 and 2 (k in {2,3,10} for N>100) x every position 0..=len+1 for small lengths plus boundary positions for 2^24-1, 2^24, 2^24+1, 2^32, u64::MAX; {wide_bar} first/last with 0..=6 other columns on terminals of 1..=40 columns; cell-geometry laws with exact rational fill (relative tolerance 2^-21 for the f32 fraction); distinct = (N, c, k, filled, partial, length class); non-trivial = at least one filled or partial cell".into(),
+        rule: "{bar:N} for N in 0..=64,100,255,1000,65535 x progress character sets of k=2..=10 clusters of width 1 and 2 (k in {2,3,10} for N>100) x every position 0..=len+1 for small lengths plus boundary positions for 2^24-1, 2^24, 2^24+1, 2^32, u64::MAX; for N <= 12 also with the style put together in the other orders (progress_chars before template, template replaced on a live bar's style); {wide_bar} first/last with 0..=6 other columns on terminals of 1..=40 columns; {wide_bar} next to an overflowing fixed-width field; a terminal resized between redraws (all width pairs 1..=14, standalone and as a MultiProgress member); cell-geometry laws with exact rational fill (relative tolerance 2^-21 for the f32 fraction); distinct = (N, c, k, filled, partial, length class); non-trivial = at least one filled or partial cell".into(),
         assumptions: vec!["with two progress characters the partial cell is indistinguishable from background, so the partial-cell law is judged for k >= 3".into()],
         bounds: json!({}),
         exhaustive: true,
